@@ -288,6 +288,14 @@ impl<K: KeyT> SetWorld<K> {
             let diff = a.iter().zip(m.iter()).find(|(x, y)| x != y);
             vio!(self, format!("contents/{}", self.ctx.op_kind), "stored elements differ from the model; first difference (actual, model) = {:?}", diff);
         }
+        if !K::HAS_SERIAL && K::HAS_DROP && !self.ctx.drop_fault_fired {
+            // elements without a serial are tracked as a multiset: everything live must be stored in a slot
+            let stored: i64 = self.slots.iter().map(|s| s.model.len() as i64).sum();
+            let live = sim().ms_live_total();
+            if live != stored + self.ctx.leaked_ms {
+                vio!(self, if live > stored + self.ctx.leaked_ms { "ledger/leak" } else { "ledger/double-drop" }, "{live} droppable elements are live, the collections hold {stored} (+{} deliberately leaked)", self.ctx.leaked_ms);
+            }
+        }
         self.ctx.transcript_add(si, len, a.iter().map(|e| e.0 as u64));
         if len as u32 <= self.ctx.cfg.sweep_below {
             self.sweep(si)?;
@@ -495,7 +503,7 @@ impl<K: KeyT> SetWorld<K> {
         fc.allowed_ids = vec![id];
         fc.arg_serials = vec![ks];
         let present = self.has(si, id);
-        let lie = op.k == Kd::GetOrInsertWith && op.b == 1;
+        let lie = op.k == Kd::GetOrInsertWith && op.b == 1 && K::UNIVERSE > 1;
         let view = K::view(id);
         let s = self.slots[si].set.as_mut().unwrap();
         // result: (bool / returned element, returned old instance)
@@ -1267,6 +1275,7 @@ impl<K: KeyT> SetWorld<K> {
         fc.fresh_ok = true;
         fc.allowed_ids = self.slots[si].model.iter().map(|e| e.0).collect();
         let src_model = self.slots[si].model.clone();
+        let created0 = sim().created;
         let out = if op.k == Kd::CloneTo {
             let plan = self.slots[ti].plan.clone();
             let old = self.slots[ti].set.replace(new_set::<K>(&plan)).unwrap();
@@ -1307,6 +1316,10 @@ impl<K: KeyT> SetWorld<K> {
             }
             if K::HAS_SERIAL && act.iter().any(|(e, _)| src_model.iter().any(|s| s.1 == e.1)) {
                 vio!(self, format!("clone/{:?}", op.k), "the clone shares an element instance with the source");
+            }
+            let made = sim().created - created0;
+            if K::HAS_DROP && made != src_model.len() as u64 {
+                vio!(self, format!("clone/{:?}", op.k), "cloning {} elements created {made} element instances", src_model.len());
             }
             self.dropped_check(&old_model, "clone_from (old target contents)")?;
         }
